@@ -80,11 +80,21 @@ def writer_classes(f_good):
                     for lp in walk_local(f_good.node):
                         if isinstance(lp, ast.For) and norm(lp.iter) == "identifier" and isinstance(lp.target, ast.Name) and lp.target.id in t:
                             body_rej.append((n.test, lp.target.id))
-    if not first_rej and not body_rej:
+    body_acc = []  # `return all(<pred over ch> for ch in identifier)`: accepted when the predicate holds
+    for r in walk_local(f_good.node):
+        if isinstance(r, ast.Return) and isinstance(r.value, ast.Call) and norm(r.value.func) == "all" and r.value.args \
+                and isinstance(r.value.args[0], (ast.GeneratorExp, ast.ListComp)) and len(r.value.args[0].generators) == 1:
+            g = r.value.args[0].generators[0]
+            if norm(g.iter).startswith("identifier") and isinstance(g.target, ast.Name) and not g.ifs:
+                body_acc.append((r.value.args[0].elt, g.target.id))
+    if not first_rej and not body_rej and not body_acc:
         raise AnalysisError("I1: cannot recognise the shape of %s" % f_good.qualname)
     try:
         first = {c for c in DOMAIN if not any(eval_pred(t, c, v) for t, v in first_rej)}
-        body = {c for c in DOMAIN if not any(eval_pred(t, c, v) for t, v in body_rej)}
+        body = {c for c in DOMAIN if not any(eval_pred(t, c, v) for t, v in body_rej) and all(eval_pred(t, c, v) for t, v in body_acc)}
+        if body_acc and not first_rej:
+            pass
+        first = first & body if body_acc else first
     except _Unknown as ex:
         raise AnalysisError("I1: predicate `%s` is outside the character-class evaluator" % ex)
     return first, body
@@ -161,6 +171,13 @@ def check_c17(ctx, R):
                         repl = consts[0]
     prefix = [c.value for n in walk_local(fix.node) if isinstance(n, ast.Assign) and isinstance(n.value, ast.BinOp) and isinstance(n.value.left, ast.Constant)
               for c in [n.value.left] if isinstance(c.value, str)]
+    if repl is None or keep_pred is None:
+        # comprehension form: "".join(ch if <keep>(ch) else "_" for ch in identifier[start:])
+        for n in walk_local(fix.node):
+            if isinstance(n, ast.IfExp) and isinstance(n.orelse, ast.Constant) and isinstance(n.orelse.value, str) and isinstance(n.body, ast.Name):
+                keep_pred, keep_var, repl = n.test, n.body.id, n.orelse.value
+            elif isinstance(n, ast.IfExp) and isinstance(n.body, ast.Constant) and isinstance(n.body.value, str) and isinstance(n.orelse, ast.Name):
+                keep_pred, keep_var, repl = ast.UnaryOp(op=ast.Not(), operand=n.test), n.orelse.id, n.body.value
     if repl is None or keep_pred is None:
         raise AnalysisError("I1: cannot recognise the repair loop of _characters_fix")
     if repl in rb and repl in rba:
